@@ -636,7 +636,7 @@ func shapeOf(t *rapid.T, canon any) any {
 // genWrongType draws a value that is of no use for an option of type typ.
 func genWrongType(t *rapid.T, typ config.OptionType) any {
 	for {
-		k := rapid.IntRange(0, 12).Draw(t, "wrong_kind")
+		k := rapid.IntRange(0, 14).Draw(t, "wrong_kind")
 		switch k {
 		case 0:
 			if typ != config.OptTypeString {
@@ -676,6 +676,15 @@ func genWrongType(t *rapid.T, typ config.OptionType) any {
 			}
 		case 12:
 			return float32(0.25)
+		case 13:
+			// empty lists: nothing in them to convert or to match, yet a list all the same
+			if typ != config.OptTypeStringArray {
+				return []interface{}{}
+			}
+		case 14:
+			if typ != config.OptTypeStringArray {
+				return rapid.SampledFrom([]any{[]string{}, []string(nil), []interface{}(nil)}).Draw(t, "wrong_empty")
+			}
 		}
 	}
 }
